@@ -38,7 +38,7 @@ func confLabel(p map[string]string) string {
 
 func init() {
 	Register(&Prop{ID: "C03",
-		Meta: Meta{Level: "fault_enumeration",
+		Meta: Meta{Stages: 2, Level: "fault_enumeration",
 			Rule:       "stage 0: a fault-free profile run per protocol configuration records every schedule point (statement boundary) and kernel event (listen, stdout/stderr pipe write, accept, every socket write, close) the PLUGIN process passes while the host runs start, connect, dispense, unary call, streaming call, brokered connection in both directions, stdio write, ping, a slow call, kill; stage 1: one run per recorded point (first 1 (quick) / 3 (thorough) occurrences) in which the plugin is killed (thorough: also exit(3) and panic) exactly there; plus a group in which the plugin fails DURING the handshake (8 kinds of rejected first line x 0/1/3 further stdout lines behind it x exit/stay/close-stdout x gap), plus seeded runs: crash at a drawn simulated instant with schedule noise, wake-up order noise, and in a quarter of them connection faults instead (resets in the middle of calls, refused and slow connects). Oracle: every host call returns within its bound (no hang), no host panic, calls issued after the death that need the plugin return an error, afterwards Exited() is true and the context given to GRPCPlugin.GRPCClient is cancelled",
 			Exhaustive: "every schedule point and kernel event the plugin process passes in the profiled operation sequence, per protocol configuration (3 quick / 6 thorough), first occurrence (quick) or first three (thorough)"},
 		Plan: func(tier string, seed uint64, stage int, prev []*h.Result) []*k.Spec {
